@@ -5,6 +5,12 @@
    out_slots, next_task). */
 #include "verif.h"
 #include "src/process.c"
+#include "c12_undef.h"
+/* C12: what "the guard holds" means in this monitor model */
+int g_multi;                                  /* other threads of the run may exist */
+extern int g_held_source, g_held_sink, g_held_sched;
+int verif_lock_ok(int guard) { return !g_multi || (guard == C12_SOURCE ? g_held_source : guard == C12_SINK ? g_held_sink : g_held_sched); }
+
 #include "process_contracts.h"
 
 /* ---------------- ghost */
@@ -112,7 +118,7 @@ int pthread_cond_signal(pthread_cond_t *c)
 }
 int pthread_cond_broadcast(pthread_cond_t *c) { __CPROVER_assert(c == &sched_cond && g_held_sched, "broadcast: scheduler condition inside its monitor"); g_bcast_sched++; return 0; }
 int g_threads_created, g_threads_joined;
-int pthread_create(pthread_t *t, const pthread_attr_t *a, void *(*f)(void *), void *arg) { int r; if (r == 0) g_threads_created++; return r; }
+int pthread_create(pthread_t *t, const pthread_attr_t *a, void *(*f)(void *), void *arg) { int r; if (r == 0) { g_threads_created++; g_multi = 1; } return r; }
 int pthread_join(pthread_t t, void **rv) { g_threads_joined++; return 0; }
 
 /* ---------------- objects and functions of other translation units */
@@ -199,6 +205,7 @@ static void setup(void)
   g_malloced = 0; g_malloc_size = 0; g_sigusr2 = 0; g_fn = FN_OTHER; g_unlocks_source = 0; g_my_push = g_oth_push = 0; g_s_in_slots = 0; g_s_outq = 0;
   g_prologue_only = g_prologue_ok = 0; g_threads_created = g_threads_joined = 0; g_rd_calls = g_wr_calls = 0; g_sched_calls = g_copy_calls = 0;
   eof = 0; request_close = 0; finish = 0; in_slots = 0; out_slots = 0; work_units = 0;
+  g_multi = 1;
   g_my_in_slots = 0; g_iter_stop = 1; g_reporter_called = 0; g_rd_failed = 0; g_wr_failed = 0; g_rd_last = 1;
   __CPROVER_assume(g_rd_delivered < 1000 && g_wr_accepted < 1000 && ispec.total < 1000 && ospec.total < 1000);
   next_task = 0;
@@ -327,7 +334,7 @@ void h_primary_prologue(void)
   { unsigned nw; V_ASSUME(nw >= 1 && nw <= 3); num_worker = nw; }          /* the worker-creation loop is unwound: <= 3 workers here */
   { bool e; unsigned a, b, c; eof = e; in_slots = a; out_slots = b; work_units = c; }    /* whatever the previous operand left */
   static pthread_t wt[3]; worker_thread = wt;
-  g_prologue_only = 1; g_prologue_ok = 0;
+  g_prologue_only = 1; g_prologue_ok = 0; g_multi = 0;      /* no thread of this run exists yet (the main thread waits in halt()) */
   { int a, b, c; g_task_ready[0] = a != 0; g_task_ready[1] = b != 0; g_task_ready[2] = c != 0; }
   primary_thread();
   V_ASSERT(0, "primary_thread: the run is cut where the workers start");
